@@ -61,12 +61,6 @@ structure IbDataWordValidator where
   deriving DecidableEq, Repr
 structure ObDataWordValidator where
   deriving DecidableEq, Repr
-def Ihw.ID : Nat := 224
-def Tdh.ID : Nat := 232
-def Tdt.ID : Nat := 240
-def Ddw0.ID : Nat := 228
-def Cdw.ID : Nat := 248
-def Tdh.MAX_BC : Nat := 3563
 def Ihw.from_buf (buf : Bytes) : (Rs.Res Ihw) :=
   (Rs.Res.ok { f_active_lanes := (leField buf 0 4), f_reserved := (leField buf 4 4), f_id := (leField buf 8 2) : Ihw })
 
@@ -81,6 +75,8 @@ def Ddw0.from_buf (buf : Bytes) : (Rs.Res Ddw0) :=
 
 def Cdw.from_buf (buf : Bytes) : (Rs.Res Cdw) :=
   (Rs.Res.ok { f_calibration_word_index_lsb_calibration_user_fields := (leField buf 0 8), f_calibration_word_index_msb := (bAt buf 8), f_id := (bAt buf 9) : Cdw })
+
+def Ihw.ID : Nat := 224
 
 def Ihw.id (self_ : Ihw) : Nat :=
   (((self_.f_id >>> 8)) % 2^8)
@@ -100,6 +96,8 @@ def Tdh.trigger_type (self_ : Tdh) : Nat :=
 def Tdh.internal_trigger (self_ : Tdh) : Nat :=
   (((self_.f_trigger_type_internal_trigger_no_data_continuation_reserved2 &&& (Rs.mask 12 1))) >>> 12)
 
+def Tdh.ID : Nat := 232
+
 def Tdh.id (self_ : Tdh) : Nat :=
   (((self_.f_reserved0_id >>> 8)) % 2^8)
 
@@ -118,6 +116,8 @@ def Tdh.is_reserved_0 (self_ : Tdh) : Bool :=
 def TdhValidator.sanity_check (tdh : Tdh) : (Rs.Res Unit) :=
   (let err_str := Rs.Str.empty; (if ((Tdh.id (tdh)) != Tdh.ID) then (let err_str_2 := (err_str.app (Rs.Str.lit true [])); (Rs.Res.err err_str_2)) else (let err_str_2 := (if (!(Tdh.is_reserved_0 (tdh))) then (let err_str_2 := (err_str.app (Rs.Str.lit true [])); err_str_2) else err_str); (let err_str := (if (((Tdh.trigger_type (tdh)) == 0) && ((Tdh.internal_trigger (tdh)) == 0)) then (let err_str := (err_str_2.app (Rs.Str.lit true [])); err_str) else err_str_2); (if (!err_str.nonEmpty) then (Rs.Res.ok ()) else (Rs.Res.err err_str))))))
 
+def Tdt.ID : Nat := 240
+
 def Tdt.id (self_ : Tdt) : Nat :=
   self_.f_id
 
@@ -135,6 +135,8 @@ def Tdt.is_reserved_0 (self_ : Tdt) : Bool :=
 
 def TdtValidator.sanity_check (tdt : Tdt) : (Rs.Res Unit) :=
   (let err_str := Rs.Str.empty; (if ((Tdt.id (tdt)) != Tdt.ID) then (let err_str_2 := (err_str.app (Rs.Str.lit true [])); (Rs.Res.err err_str_2)) else (let err_str_2 := (if (!(Tdt.is_reserved_0 (tdt))) then (let err_str_2 := (err_str.app (Rs.Str.lit true [])); err_str_2) else err_str); (if (!err_str_2.nonEmpty) then (Rs.Res.ok ()) else (Rs.Res.err err_str_2)))))
+
+def Ddw0.ID : Nat := 228
 
 def Ddw0.id (self_ : Ddw0) : Nat :=
   self_.f_id
@@ -235,8 +237,30 @@ def ObDataWordValidator.check (ob_data_word_slice : Bytes) (ihw_active_lanes : N
 def ib_data_word_id_to_lane (data_word_id : Nat) : Nat :=
   (data_word_id &&& (Rs.mask 0 5))
 
+def Cdw.ID : Nat := 248
+
+def Tdh.MAX_BC : Nat := 3563
+
+def VALID_OL_CONNECT0_ID : (Nat × Nat) := (64, 70)
+
+def VALID_OL_CONNECT1_ID : (Nat × Nat) := (72, 78)
+
+def VALID_OL_CONNECT2_ID : (Nat × Nat) := (80, 86)
+
+def VALID_OL_CONNECT3_ID : (Nat × Nat) := (88, 94)
+
 def Ddw0.reserved2 (self_ : Ddw0) : Nat :=
   (((((self_.f_res3_lane_status &&& (Rs.mask 56 8))) >>> 56)) % 2^8)
+
+def VALID_IL_ID : (Nat × Nat) := (32, 40)
+
+def VALID_ML_CONNECT0_ID : (Nat × Nat) := (67, 70)
+
+def VALID_ML_CONNECT1_ID : (Nat × Nat) := (72, 75)
+
+def VALID_ML_CONNECT2_ID : (Nat × Nat) := (83, 86)
+
+def VALID_ML_CONNECT3_ID : (Nat × Nat) := (88, 91)
 
 /-! kernel-checked: every literal mask was split into contiguous runs correctly -/
 example : (Rs.mask 0 28) = 268435455 := by decide
